@@ -178,7 +178,7 @@ fn convert_hgignore_glob(glob: &str, file_path: &Path) -> Result<Regex, Error> {
                     "**" => ".*",
                     "." => "\\.",
                     "*" => "[^/]*",
-                    "?" => "[^/]+",
+                    "?" => "[^/]",
                     "[" => "\\[",
                     "]" => "\\]",
                     "(" => "\\(",
